@@ -136,7 +136,9 @@ PINMATS = {'ox_a': {'thermal_conductivity': [3.0]},
 HOTSPOT = {'hs_cool': {'temperature': 'coolant', 'subfactors': 'fftf_clad_mw',
                        'input_sigma': 3, 'output_sigma': 2},
            'hs_clad': {'temperature': 'clad_mw', 'subfactors': 'crbr_fuel_clad_mw'},
-           'hs_fuel': {'temperature': 'fuel_cl', 'subfactors': 'fftf_fuel_cl'}}
+           'hs_fuel': {'temperature': 'fuel_cl', 'subfactors': 'fftf_fuel_cl'},
+           # a location whose peak-pin table is not among those written by default
+           'hs_clod': {'temperature': 'clad_od', 'subfactors': 'crbr_blanket_clad_mw'}}
 DUMP_FLAGS = ['coolant', 'duct', 'pins', 'gap', 'gap_fine', 'average', 'maximum',
               'pressure_drop']
 # the files these flags produce (no bypass gap in the enumerated bundles)
